@@ -8,6 +8,6 @@ open Neutrino.Store
 #print axioms reopen_ahead
 #print axioms exec_outcome
 #print axioms rollTo_outcome
-#print axioms C08_first_init_counterexample
-#print axioms C08_first_init_false
-#print axioms C08_first_init_partial
+#print axioms C08_first_init
+#print axioms C08_first_init_points
+#print axioms C08_first_init_keeps_data
